@@ -488,6 +488,80 @@ static void do_fsteal(std::istringstream& in) {
     print_log();
 }
 
+// scanov <overload 0..5> <n> <grain> <threads> <seed> <delay>
+//   0 body   1 body,simple   2 body,auto   3 func   4 func,simple   5 func,auto          (non-commutative: the "sum" is list concatenation)
+// prints ok=<0|1> total_ok=<0|1> first_bad=<i>:  y[i] must be the in-order prefix x[0..i], the returned total the full reduction
+struct OvScanBody {
+    std::vector<long> sum; std::vector<std::vector<long>>* out;
+    OvScanBody(std::vector<std::vector<long>>* o) : out(o) {}
+    OvScanBody(OvScanBody& b, tbb::split) : out(b.out) {}
+    template <class Tag> void operator()(const tbb::blocked_range<long>& r, Tag) {
+        perturb(r.begin());
+        for (long i = r.begin(); i < r.end(); ++i) { sum.push_back(i); if (Tag::is_final_scan()) (*out)[i] = sum; }
+    }
+    void reverse_join(OvScanBody& left) { std::vector<long> v = left.sum; v.insert(v.end(), sum.begin(), sum.end()); sum.swap(v); }
+    void assign(OvScanBody& b) { sum = b.sum; }
+};
+static void do_scanov(std::istringstream& in) {
+    int ov; long n, grain; int threads;
+    if (!(in >> ov >> n >> grain >> threads >> g_seed >> g_delay) || ov < 0 || ov > 5 || grain < 1 || threads < 1 || n < 0 || n > 4000) { std::puts("bad-op"); return; }
+    std::vector<std::vector<long>> out((size_t)n);
+    std::vector<long> total;
+    reset_log(); g_log_div = false;
+    in_arena(threads, [&] {
+        tbb::blocked_range<long> r(0, n, (size_t)grain);
+        OvScanBody body(&out);
+        auto scan = [&out](const tbb::blocked_range<long>& rr, std::vector<long> s, bool is_final) {
+            perturb(rr.begin());
+            for (long i = rr.begin(); i < rr.end(); ++i) { s.push_back(i); if (is_final) out[i] = s; }
+            return s;
+        };
+        auto rj = [](std::vector<long> l, const std::vector<long>& rgt) { l.insert(l.end(), rgt.begin(), rgt.end()); return l; };
+        std::vector<long> id;
+        switch (ov) {
+        case 0: tbb::parallel_scan(r, body); total = body.sum; break;
+        case 1: tbb::parallel_scan(r, body, tbb::simple_partitioner()); total = body.sum; break;
+        case 2: tbb::parallel_scan(r, body, tbb::auto_partitioner()); total = body.sum; break;
+        case 3: total = tbb::parallel_scan(r, id, scan, rj); break;
+        case 4: total = tbb::parallel_scan(r, id, scan, rj, tbb::simple_partitioner()); break;
+        case 5: total = tbb::parallel_scan(r, id, scan, rj, tbb::auto_partitioner()); break;
+        }
+    });
+    long first_bad = -1;
+    for (long i = 0; i < n && first_bad < 0; ++i) {
+        if ((long)out[i].size() != i + 1) { first_bad = i; break; }
+        for (long k = 0; k <= i; ++k) if (out[i][k] != k) { first_bad = i; break; }
+    }
+    bool tok = (long)total.size() == n;
+    for (long k = 0; k < n && tok; ++k) if (total[k] != k) tok = false;
+    std::printf("ok=%d total_ok=%d first_bad=%ld\n", first_bad < 0 ? 1 : 0, tok ? 1 : 0, first_bad);
+}
+
+// sortov <overload 0..3> <threads> <n> a0 ... a(n-1)     0 (begin,end,comp)  1 (begin,end)  2 (range,comp)  3 (range)
+// prints sorted=<0|1> perm=<0|1>   (comparator: operator< on the key; items carry their original index)
+struct OvItem { unsigned long key; long idx; bool operator<(const OvItem& o) const { return key < o.key; } };
+static void do_sortov(std::istringstream& in) {
+    int ov, threads; size_t n;
+    if (!(in >> ov >> threads >> n) || ov < 0 || ov > 3 || threads < 1) { std::puts("bad-op"); return; }
+    std::vector<OvItem> a(n);
+    for (size_t i = 0; i < n; ++i) { if (!(in >> a[i].key)) { std::puts("bad-op"); return; } a[i].idx = (long)i; }
+    std::vector<OvItem> orig(a);
+    auto cmp = [](const OvItem& x, const OvItem& y) { return x.key < y.key; };
+    in_arena(threads, [&] {
+        switch (ov) {
+        case 0: tbb::parallel_sort(a.begin(), a.end(), cmp); break;
+        case 1: tbb::parallel_sort(a.begin(), a.end()); break;
+        case 2: tbb::parallel_sort(a, cmp); break;
+        case 3: tbb::parallel_sort(a); break;
+        }
+    });
+    bool sorted = true, perm = a.size() == n;
+    for (size_t i = 1; i < a.size(); ++i) if (a[i].key < a[i - 1].key) sorted = false;
+    std::vector<unsigned char> seen(n, 0);
+    for (size_t i = 0; i < a.size() && perm; ++i) { long ix = a[i].idx; if (ix < 0 || (size_t)ix >= n || seen[ix] || orig[ix].key != a[i].key) perm = false; else seen[ix] = 1; }
+    std::printf("sorted=%d perm=%d\n", sorted ? 1 : 0, perm ? 1 : 0);
+}
+
 // ---------------------------------------------------------------------------------------------
 // parallel_sort
 // ---------------------------------------------------------------------------------------------
@@ -584,6 +658,8 @@ int main() {
         else if (op == "det") do_det(in);
         else if (op == "detov") do_detov(in);
         else if (op == "redov") do_redov(in);
+        else if (op == "scanov") do_scanov(in);
+        else if (op == "sortov") do_sortov(in);
         else if (op == "scan") do_scan(in);
         else if (op == "fsteal") do_fsteal(in);
         else if (op == "sort") do_sort(in);
